@@ -200,7 +200,7 @@ def check_smoothness(case, shard):
     order = R.smooth_order(code)
     mag = abs(up) + abs(dn) + abs(nm) if R.ADDITIVE[R._norm(code)] else max(up / nm, dn / nm, 1.0) ** (a0 + 0.1)
     for bp in R.breakpoints(code, a0):
-        h = 2e-3
+        h = 2e-4  # truncation error of the one-sided differences ~ h^2 f'''' (f'''' reaches 1e3-1e4 for alpha0=0.5): 4e-4 at most
         xs = [bp + k * h for k in range(-4, 5)]
         eps = [math.nextafter(bp, math.inf), math.nextafter(bp, -math.inf)]
         vals = to_np(inst(tb.astensor([xs + eps])))[0, 0, :, 0]
@@ -213,7 +213,7 @@ def check_smoothness(case, shard):
             continue
         shard.ok("smoothness")
         if order >= 1:
-            # one-sided 3rd-order accurate first derivatives (error O(h^3) f'''' ~ 1e-8*mag)
+            # one-sided 3rd-order accurate first derivatives (error O(h^3) f'''')
             dr = (-11 * f[0] + 18 * f[1] - 9 * f[2] + 2 * f[3]) / (6 * h)
             dl = (11 * f[0] - 18 * f[-1] + 9 * f[-2] - 2 * f[-3]) / (6 * h)
             if not abs(dr - dl) <= 1e-4 * mag:
@@ -221,7 +221,7 @@ def check_smoothness(case, shard):
             else:
                 shard.ok("smoothness")
         if order >= 2:
-            # one-sided 2nd-order accurate second derivatives (error O(h^2) ~ 4e-6*mag)
+            # one-sided 2nd-order accurate second derivatives (error O(h^2) f''''; rounding eps*|f|/h^2 ~ 5e-9)
             d2r = (2 * f[0] - 5 * f[1] + 4 * f[2] - f[3]) / (h * h)
             d2l = (2 * f[0] - 5 * f[-1] + 4 * f[-2] - f[-3]) / (h * h)
             if not abs(d2r - d2l) <= 2e-3 * mag:
